@@ -89,6 +89,8 @@ def run(repo, rep, tier):
     r3 = rep.rule('C04.R3', 'default namespace applied on every operation')
     r5 = rep.rule('C04.R5', 'operation name on the wire = method name = '
                   'adapter suffix')
+    r4 = rep.rule('C04.R4', 'parameter values are normalised and the '
+                  'server-side parser accepts every element they become')
 
     ops = operations(repo)
     conn = repo.cls(OPS, 'WBEMConnection')
@@ -340,3 +342,148 @@ def run(repo, rep, tier):
         rep.finding(r2, mf.qualname, 'PARAMVALUE list', 'filter', OPS,
                     mf.node.lineno, 'the PARAMVALUE list is not built from '
                     'all parameter tuples')
+
+    # ---- R4 ---------------------------------------------------------------
+    from .. import dtd as dtdmod
+    from .. import xmltables as X
+    D = dtdmod.load(repo)
+    R = X.readers(repo)
+    # (a) path-typed parameters lose host and namespace
+    for hn, types in (('_iparam_objectname', '(CIMClassName, CIMInstanceName)'),
+                      ('_iparam_classname', 'CIMClassName'),
+                      ('_iparam_instancename', 'CIMInstanceName')):
+        h = conn.methods.get(hn)
+        if h is None:
+            raise AnalysisError(hn + ' vanished')
+        r4.sites += 1
+        r4.functions.add(h.fq)
+        pn = h.params[0]
+        br = None
+        for n in walk_no_nested(h.node):
+            if isinstance(n, ast.If) and isinstance(n.test, ast.Call) and \
+                    dotted(n.test.func) == 'isinstance' and \
+                    norm(n.test.args[0]) == pn and \
+                    norm(n.test.args[1]) == types:
+                br = n
+        stm = [norm(x) for x in br.body] if br is not None else []
+        ok = br is not None and '%s = %s.copy()' % (pn, pn) in stm and \
+            '%s.host = None' % pn in stm and \
+            '%s.namespace = None' % pn in stm and \
+            stm.index('%s = %s.copy()' % (pn, pn)) == 0
+        r4.ob(ok, hn, {'helper': hn, 'path_branch': stm})
+        if not ok:
+            rep.finding(r4, h.qualname, 'copy(); host = None; namespace = '
+                        'None', 'path-not-stripped', OPS,
+                        h.node.lineno, 'a path given as parameter is not '
+                        'copied and stripped of host and namespace: it '
+                        'would be sent as an INSTANCEPATH/CLASSPATH child '
+                        'of IPARAMVALUE (or the caller\'s object is '
+                        'modified)')
+    # (b) every IPARAMVALUE value of every operation went through a
+    # normalising helper
+    NORMALISERS = ('_iparam_', '_validate_')
+    for op in ops:
+        if op.envelope != '_imethodcall':
+            continue
+        f = op.func
+        validated = set()
+        for c in walk_no_nested(f.node):
+            if isinstance(c, ast.Call) and (dotted(c.func) or '').startswith(
+                    '_validate_'):
+                for a in c.args:
+                    if isinstance(a, ast.Name):
+                        validated.add(a.id)
+        for c in op.envelope_calls:
+            for k in c.keywords:
+                if k.arg is None or k.arg in CONTROL_KW or \
+                        k.arg == 'namespace':
+                    continue
+                r4.sites += 1
+                v = k.value
+                how = None
+                if isinstance(v, ast.Name):
+                    a = last_assign_before(f, v.id, c)
+                    if a is not None and isinstance(a.value, ast.Call) and \
+                            '_iparam_' in (dotted(a.value.func) or ''):
+                        how = dotted(a.value.func).split('.')[-1]
+                    elif v.id in validated:
+                        how = 'validated'
+                elif isinstance(v, ast.Subscript) and \
+                        norm(v) == 'context[0]':
+                    how = 'context[0] (validated by _validate_context)'
+                ok = how is not None
+                r4.ob(ok, '%s:%s' % (f.name, k.arg),
+                      {'operation': f.name, 'parameter': k.arg,
+                       'normalised_by': how})
+                if not ok:
+                    rep.finding(r4, f.qualname, '%s=%s' % (k.arg, norm(v)),
+                                'not-normalised', OPS, c.lineno,
+                                'the value sent as IPARAMVALUE %s does not '
+                                'come from an _iparam_*/_validate_* helper: '
+                                'type and path normalisation are skipped'
+                                % k.arg)
+    # (c) elements the values can become vs reader / DTD
+    objm = repo.module('pywbem/_cim_obj.py')
+    produced = set()
+    W = X.writers(repo)
+    cls2elem = {w.cls.name: e for e, w in W.items()}
+    for cn in ('CIMClassName', 'CIMInstanceName', 'CIMClass', 'CIMInstance',
+               'CIMQualifierDeclaration'):
+        tf = objm.classes[cn].methods.get('tocimxml')
+        for n in walk_no_nested(tf.node):
+            if isinstance(n, ast.Return) and isinstance(n.value, ast.Call):
+                d = dotted(n.value.func) or ''
+                if d.startswith('_cim_xml.'):
+                    produced.add(cls2elem.get(d.split('.')[1], d))
+    mt = objm.functions.get('tocimxml')
+    for n in walk_no_nested(mt.node):
+        if isinstance(n, ast.Call) and (dotted(n.func) or '').startswith(
+                '_cim_xml.'):
+            nm = dotted(n.func).split('.')[1]
+            if nm in ('VALUE', 'VALUE_ARRAY'):
+                produced.add(cls2elem.get(nm, nm))
+    pathful = set()
+    for e in D.elements:
+        ch = D.children(e)
+        if ch & {'NAMESPACEPATH', 'LOCALNAMESPACEPATH', 'HOST'}:
+            pathful.add(e)
+    changed = True
+    while changed:
+        changed = False
+        for e in D.elements:
+            if e not in pathful and e.startswith('VALUE.') and \
+                    D.children(e) & pathful:
+                pathful.add(e)
+                changed = True
+    rd = R.get('IPARAMVALUE')
+    if rd is None:
+        raise AnalysisError('parse_iparamvalue table vanished')
+    # children accepted by the reader: argument of optional_child
+    pf = rd.func
+    accepted = set()
+    for c in walk_no_nested(pf.node):
+        if isinstance(c, ast.Call) and dotted(c.func) in (
+                'self.optional_child', 'self.one_child') and \
+                len(c.args) == 2 and isinstance(c.args[1], ast.Tuple):
+            accepted = {const_str(e) for e in c.args[1].elts}
+    dtdch = D.children('IPARAMVALUE')
+    r4.sites += 1
+    diff = (produced - pathful) - accepted
+    ok = bool(accepted) and not diff
+    r4.ob(ok, 'IPARAMVALUE:producible-accepted',
+          {'producible': sorted(produced - pathful),
+           'path_elements_excluded_by_a': sorted(produced & pathful),
+           'reader_accepts': sorted(accepted)})
+    if not ok:
+        rep.finding(r4, pf.qualname, 'IPARAMVALUE children %s' % sorted(diff),
+                    'child-not-accepted', 'pywbem/_tupleparse.py',
+                    pf.node.lineno, 'a parameter value can be encoded as %s '
+                    'which parse_iparamvalue does not accept' % sorted(diff))
+    ok = accepted == dtdch
+    r4.ob(ok, 'IPARAMVALUE:reader-vs-dtd',
+          {'reader': sorted(accepted), 'dtd': sorted(dtdch)})
+    if not ok:
+        rep.finding(r4, pf.qualname, 'IPARAMVALUE children', 'reader-vs-dtd',
+                    'pywbem/_tupleparse.py', pf.node.lineno,
+                    'parse_iparamvalue and the DTD differ in the allowed '
+                    'children: %s' % sorted(accepted ^ dtdch))
